@@ -257,6 +257,12 @@ func (bqp *binaryQuantizedPoint) Id() uint64 {
 }
 
 func (bqp *binaryQuantizedPoint) IdFromKey(key []byte) (uint64, bool) {
+	// Once the threshold is set WriteTo stores only the quantised vector under
+	// 'q', before that only the full vector under 'v'. A point written before
+	// fitting keeps both keys, the item cache skips ids it has already loaded.
+	if id, ok := conversion.NodeIdFromKey(key, 'q'); ok {
+		return id, true
+	}
 	return conversion.NodeIdFromKey(key, 'v')
 }
 
